@@ -127,7 +127,7 @@ Definition obj_filter (pkg name : string) (targs : list string) : string :=
    replacement prints its constraint, which is [any] in the modelled fragment. *)
 Fixpoint ty_filter (rs : list string) (a : ty) : string :=
   match a with
-  | TBasic x => basic_str x                                   (* default: t.String() *)
+  | TBasic x => basic_str (basic_canon x)                     (* byte, rune print as uint8, int32; others t.String() *)
   | TNamed p n l => obj_filter p n (tys_filter rs l)
   | TPtr x => "*" ++ ty_filter rs x
   | TSlice x => "[]" ++ ty_filter rs x
